@@ -38,9 +38,21 @@ CHECKS = {
  "C10": dict(engine="T", cat="translation_validation", ref="5 C10",
    text="Constraint systems by category (bounded, empty with margin / by a hair, point, lower-dimensional, unbounded, redundant, zero rows, parallel rows, free coordinate) with five objectives each, plus every LP that real pruning runs pose (hook call log): z3 referees each answer of status/is_feasible/solve_linprog/Chebyshev program over all points: infeasible => tightened system empty; feasible => relaxed system non-empty; optimal(w) => w in the set (1e-8 relative) and no feasible point is better by more than 1e-6; unbounded => a feasible point and an improving recession direction exist.",
    note=T_NOTE, technique="SMT (z3 QF_LRA) certificate checking of every LP answer: emptiness, membership, optimality (no better point), recession rays"),
+ "C11": dict(engine="T", cat="fault_enumeration", ref="5 C11",
+   text="For seeded base histories ending in infeasible_elimination, pruned composition or tree arithmetic the LP calls of the operation are counted through the hook, then the operation is repeated under every fault plan: each single call position x {Error, Unbounded, perturbed witness, far-off witness}, all calls faulted (thorough: pairs and seeded subsets). Per plan: no panic, well-formed tree, cached witnesses/verdicts sound, and z3 decides for every piece of the un-pruned reference (tightened by tau) that the faulted result does not differ in definedness or value.",
+   note=T_NOTE + "; fault model = the cfg(affinitree_verif) hook overriding the answer of Polytope::solve_linprog at chosen call indices",
+   technique="exhaustive enumeration of LP fault positions (up to the subset bound) with an SMT (z3 QF_LRA) function-preservation oracle over all inputs"),
+ "C15": dict(engine="L+T", cat="model_checking", ref="5 C15",
+   text="Engine L: the real generic clean-up routines (remove_rows, remove_zero_rows, remove_tautologies, normalize, remove_duplicate_rows) are executed on a symbolic-real scalar with every matrix entry, bias and test point symbolic (rows<=3, dims<=2/3); every branch is a solver query and on every feasible path z3 decides same-point-set and subsequence. Engine T: remove_redundant_row_constraints on seeded systems by category; z3 decides that no point of the result violates a dropped row by a margin, that a canonical-empty result only replaces an empty system, and that no kept row is implied by the others by a margin.",
+   note="engine L: exact real arithmetic stands in for f64, tolerance-carrying routines are specified with margins; path exploration bounded by the dimension bound; " + T_NOTE,
+   technique="path-exhaustive symbolic execution of the generic code at a symbolic-real scalar with z3 (QF_NRA/LRA) on every branch and assertion; SMT certificate checks for the LP-based routine"),
  "C17": dict(engine="T", cat="translation_validation", ref="5 C17",
    text="Every schema generator (dims 1..3/1..5, every row/class, a parameter lattice containing the degenerate points), from_poly on seeded polytopes and from_slice+remove_axes on generated trees is run for real; z3 decides per piece of the produced tree that no real input exists where it differs from the textbook definition written out as an exact piece list (strict/non-strict sides as in the definitions).",
    note=T_NOTE, technique="SMT (z3 QF_LRA) equivalence of exported schema trees against textbook piecewise definitions, all inputs symbolic"),
+ "C18": dict(engine="T", cat="translation_validation", ref="5 C18",
+   text="Builder call sequences over 15 symbols (all of length<=2, all/seeded of length 3, seeded 4-5) are run for real: every call's Ok/Err and current_shape is compared with a reference shape calculus and every accepted architecture is distilled (no panic, terminal output dimension = current_shape) - this clause is a comparison over an enumerated space, not a solver verdict; for every split point k z3 decides that extract_range(0,k) composed with extract_range(k,n) equals the whole tree for all inputs. read_layers is outside the claim.",
+   note=T_NOTE + "; read_layers (zip+npy parsing) is not covered: no symbolic model of the file format within reach",
+   technique="SMT (z3 QF_LRA) equivalence of split-and-composed trees against the whole tree for all inputs; shape calculus by comparison over enumerated call sequences"),
 }
 
 NOT_APPLICABLE = {
